@@ -52,6 +52,8 @@ func (wgb *WeightedAuthorizationModelGraphBuilder) Build(model *openfgav1.Author
 		}
 	}
 
+	verifObserveStructure(wb)
+
 	err := wb.AssignWeights()
 	if err != nil {
 		return nil, err
